@@ -143,11 +143,12 @@ def eval_history(case):
             nh = gas.make_nonhydrocarbon_properties(*cont)
             tpc, ppc = gas.pseudocritical_point_Sutton(g, nh, dry)
             T = case["T"]
-            calls += [("z_factor_DAK", gas.z_factor_DAK, (T, p, tpc, ppc)),
-                      ("density_DAK", gas.density_DAK, (T, p, tpc, ppc, g)),
-                      ("b_factor_DAK", gas.b_factor_DAK, (T, p, tpc, ppc)),
-                      ("compressibility_DAK", gas.compressibility_DAK, (T, p, tpc, ppc)),
-                      ("viscosity_Sutton", gas.viscosity_Sutton, (T, p, tpc, ppc, g))]
+            G = "bluebonnet.fluids.gas:"
+            calls += [("z_factor_DAK", G + "z_factor_DAK", (T, p, tpc, ppc)),
+                      ("density_DAK", G + "density_DAK", (T, p, tpc, ppc, g)),
+                      ("b_factor_DAK", G + "b_factor_DAK", (T, p, tpc, ppc)),
+                      ("compressibility_DAK", G + "compressibility_DAK", (T, p, tpc, ppc)),
+                      ("viscosity_Sutton", G + "viscosity_Sutton", (T, p, tpc, ppc, g))]
     viol = purity_violations(calls)
     for v in viol:
         v["case"] = dict(case, call=v["case"])
